@@ -8,7 +8,7 @@ RULE = ("seeded gen_coords runs with residue types of 1-4 atoms (+ virtual site;
         "0..n bonded neighbours built before/after, backmapping factors {0.2,0.4,1.0}, residues supplied as centres (-mc) "
         "mixed in; the orientation optimiser's result is replaced from the decision tape by angle triples from a fixed set "
         "(0, +-pi/2, pi, 1e3-scale, 1e-9-scale, random) in ~70% of the calls; per backmapped residue: centre of geometry = "
-        "residue position (1e-9), Kabsch fit of factor*template onto the atoms restricted to det=+1 leaves <= 1e-8, "
+        "residue position (1e-9), Kabsch fit of factor*template onto the atoms restricted to det=+1 leaves <= 1e-6 nm, "
         "copies of one type congruent, file coordinates agree to 3 decimals; non-trivial = a backmapped residue with >= 2 "
         "atoms; distinct = distinct event-log digests")
 ASSUMPTIONS = wa.ASSUMPTIONS
